@@ -1173,6 +1173,10 @@ wrapped_interval<Number>::Trunc(unsigned bits_to_keep) const {
   }
 
   wrapint::bitwidth_t w = get_bitwidth(__LINE__);
+  if (bits_to_keep >= w) {
+    // nothing is cut off (and ashr must not shift a 64-bit word by 64 bits)
+    return *this;
+  }
   if (m_start.ashr(wrapint(bits_to_keep, w)) ==
       m_end.ashr(wrapint(bits_to_keep, w))) {
     wrapint lower_start = m_start.keep_lower(bits_to_keep);
